@@ -29,7 +29,7 @@ TYPEDEFS = {"Py_ssize_t": "long", "size_t": "unsigned long", "ssize_t": "long", 
             "int16_t": "short", "int32_t": "int", "int64_t": "long", "digit": "unsigned int",
             "sdigit": "int", "twodigits": "unsigned long", "stwodigits": "long",
             "uintptr_t": "unsigned long", "intptr_t": "long", "PY_LONG_LONG": "long long",
-            "Py_UNICODE": "int", "wchar_t": "int"}
+            "Py_UNICODE": "int", "wchar_t": "int", "PyGILState_STATE": "unsigned int"}
 
 
 class CType:
@@ -501,6 +501,9 @@ class CExec:
             raise OutOfSubset("access to object %s of unknown extent" % p.obj)
         self.oblige(st, "ub", "oob_read." + p.obj, z3.And(p.off >= 0, p.off < o.length), node)
         if o.elem.is_ptr():
+            if getattr(o, "target", None):
+                # pointer cell into a known buffer: the cell holds the element offset
+                return Ptr(o.elem, o.target, z3.simplify(z3.Select(st.mem[p.obj], p.off)))
             # pointer-valued elements are opaque objects
             return Ptr(o.elem, "%s[]" % p.obj, z3.IntVal(0))
         t = z3.simplify(z3.Select(st.mem[p.obj], p.off))
@@ -513,6 +516,11 @@ class CExec:
         if o.length is None:
             raise OutOfSubset("access to object %s of unknown extent" % p.obj)
         self.oblige(st, "ub", "oob_write." + p.obj, z3.And(p.off >= 0, p.off < o.length), node)
+        if isinstance(v, Ptr):
+            if getattr(o, "target", None) and v.obj == o.target:
+                st.mem[p.obj] = z3.Store(st.mem[p.obj], p.off, v.off)
+                return
+            raise OutOfSubset("store of a pointer into %s" % p.obj)
         st.mem[p.obj] = z3.Store(st.mem[p.obj], p.off, v.t)
 
     def new_obj(self, st, name, elem, length, init=None):
@@ -938,7 +946,7 @@ class CExec:
 
     def call_inline(self, st, name, argn, n):
         args = [self.ev(st, a) for a in argn]
-        sub = CExec.__new__(CExec)
+        sub = type(self).__new__(type(self))
         sub.__dict__.update(self.__dict__)
         sub.func = self._find_function(name)
         sub.returns = []
@@ -1140,6 +1148,21 @@ class CExec:
         else:
             st.vars[d["id"]] = None
 
+    def guarded_branch(self, st, stmt, node):
+        """run a branch; a construct outside the subset inside it is acceptable iff the branch is unreachable
+        under the contract: that becomes an obligation of kind 'subset' (never reported as a violation)."""
+        entry_path = list(st.path)
+        n_obl = len(self.obligations)
+        try:
+            return self.exec_stmt(st, stmt)
+        except OutOfSubset as e:
+            del self.obligations[n_obl:]
+            probe = State()
+            probe.path = entry_path
+            self.oblige(probe, "subset", "branch_with_unmodelled_construct_is_unreachable", False, node,
+                        note="branch contains: %s" % e)
+            return []
+
     def exec_if(self, st, n):
         inner = n["inner"]
         cond, then = inner[0], inner[1]
@@ -1150,13 +1173,13 @@ class CExec:
             s1 = st.copy()
             if not z3.is_true(c):
                 s1.path.append(c)
-            outs.extend(self.exec_stmt(s1, then))
+            outs.extend(self.guarded_branch(s1, then, n))
         if not z3.is_true(c):
             s2 = st.copy()
             if not z3.is_false(c):
                 s2.path.append(z3.Not(c))
             if els is not None:
-                outs.extend(self.exec_stmt(s2, els))
+                outs.extend(self.guarded_branch(s2, els, n))
             else:
                 outs.append(("normal", s2, None))
         normals = self.try_merge([o[1] for o in outs if o[0] == "normal"])
